@@ -281,6 +281,39 @@ fn sweep(ctx: &mut Ctx, which: Which) {
         eval_case(ctx, which, &e, &pts, &mut shrinks);
     }
     ctx.bound("completed_depth_full_alphabet", json!(2));
+    // balanced depth 3 over a structured sub-alphabet: (affine side) op (affine side), where an affine side
+    // is (L * M) + N, (L / M) - N, N + (L * M), ... over leaves {%x, %y, 2.5, a[0]}.  This is the shape the
+    // simplifier's multi-level rewrite rules (combining like terms, factoring, cancelling) match on, and
+    // it is out of reach of "one deep branch" layers.
+    {
+        let lv = [Ex::Var("x".into()), Ex::Var("y".into()), Ex::Num(2.5, 0.0), Ex::Addr("a".into(), 0)];
+        let mut sides: Vec<Ex> = vec![];
+        for l in &lv {
+            for m in &lv {
+                for mul in [4u8, 3] {
+                    let prod = Ex::In(mul, Box::new(l.clone()), Box::new(m.clone()));
+                    for n in &lv {
+                        for add in [1u8, 2] {
+                            sides.push(Ex::In(add, Box::new(prod.clone()), Box::new(n.clone())));
+                            sides.push(Ex::In(add, Box::new(n.clone()), Box::new(prod.clone())));
+                        }
+                    }
+                }
+            }
+        }
+        let outer: &[u8] = if ctx.tier == Tier::Quick { &[1, 2] } else { &[1, 2, 4, 3, 0] };
+        ctx.bound("balanced_depth3_sides", json!(sides.len()));
+        for a in &sides {
+            for b in &sides {
+                for o in outer {
+                    let mk = || Ex::In(*o, Box::new(a.clone()), Box::new(b.clone()));
+                    if ctx.take(|| json!({"expr": mk().show()})) {
+                        eval_case(ctx, which, &mk(), &pts, &mut shrinks);
+                    }
+                }
+            }
+        }
+    }
     if ctx.tier == Tier::Thorough {
         // reduced alphabet, depth 3 with one deep branch: unary over depth-2, infix of (depth<=2) x (depth<=1) both ways
         let rs = Space::new(reduced_leaves(), vec![3, 4], vec![0], vec![0, 1, 2, 3, 4]);
@@ -336,7 +369,7 @@ pub static C03: PropDef = PropDef {
     id: "C03",
     level: "exploration",
     engine: "sweep",
-    rule: "every expression tree of depth <= 2 over leaves {0,1,-1,2.5,1+2i,-2i,pi,%x,%y,a[0],b[1]}, the 5 functions, prefix -/+ and the 5 infix operators, built through the public constructors (2.4 M trees); thorough adds a reduced-alphabet depth-3 layer. Each is printed, parsed back and both are evaluated at 3 generic points and 3 special ones (all 0; all 1; x = 2.5, y = -1, i.e. values colliding with literal leaves). non-trivial = non-leaf tree, distinct by structure",
+    rule: "every expression tree of depth <= 2 over leaves {0,1,-1,2.5,1+2i,-2i,pi,%x,%y,a[0],b[1]}, the 5 functions, prefix -/+ and the 5 infix operators, built through the public constructors (2.4 M trees), plus a balanced depth-3 layer: (affine side) op (affine side) with sides (L*M)+N, N-(L/M), ... over {%x, %y, 2.5, a[0]} (512 sides; op in {+,-}, thorough all five); thorough adds a reduced-alphabet depth-3 layer with one deep branch. Each is printed, parsed back and both are evaluated at 3 generic points and 3 special ones (all 0; all 1; x = 2.5, y = -1, i.e. values colliding with literal leaves). non-trivial = non-leaf tree, distinct by structure",
     assumptions: ASSUME,
     run: |ctx| sweep(ctx, Which::C03),
     replay: |c| replay(Which::C03, c),
@@ -346,7 +379,7 @@ pub static C12: PropDef = PropDef {
     id: "C12",
     level: "exploration",
     engine: "sweep",
-    rule: "every expression tree of depth <= 2 over the same alphabet as C03 (2.4 M trees; thorough adds reduced depth 3); each is simplified by the real simplifier and original and result are evaluated at 3 generic points and 3 special ones (all 0; all 1; x = 2.5, y = -1) wherever the original is finite and well-conditioned (tolerance 1e-9 mixed; a non-finite result where the original is finite is a violation), plus: no new variables / references, no pi, simplify() == into_simplified(). non-trivial = non-leaf tree",
+    rule: "every expression tree of depth <= 2 over the same alphabet as C03 (2.4 M trees) plus the balanced depth-3 layer of C03 (affine sides; 524 288 trees, thorough 1.3 M); thorough adds reduced depth 3 with one deep branch; each is simplified by the real simplifier and original and result are evaluated at 3 generic points and 3 special ones (all 0; all 1; x = 2.5, y = -1) wherever the original is finite and well-conditioned (tolerance 1e-9 mixed; a non-finite result where the original is finite is a violation), plus: no new variables / references, no pi, simplify() == into_simplified(). non-trivial = non-leaf tree",
     assumptions: ASSUME,
     run: |ctx| sweep(ctx, Which::C12),
     replay: |c| replay(Which::C12, c),
@@ -356,7 +389,7 @@ pub static C13: PropDef = PropDef {
     id: "C13",
     level: "exploration",
     engine: "sweep",
-    rule: "every expression tree of depth <= 2 over the same alphabet x 2 value assignments (a generic one and one whose values collide with literal leaves of the alphabet) x all 4 subsets of {x,y} bound x 4 memory maps (none, a only, a and b, a too short): evaluate is Ok iff everything is supplied, substitute-then-evaluate == evaluate, memory_references == address leaves (multiset), partial substitution keeps other variables. non-trivial = non-leaf tree",
+    rule: "every expression tree of depth <= 2 over the same alphabet (plus the balanced depth-3 layer of C03) x 2 value assignments (a generic one and one whose values collide with literal leaves of the alphabet) x all 4 subsets of {x,y} bound x 4 memory maps (none, a only, a and b, a too short): evaluate is Ok iff everything is supplied, substitute-then-evaluate == evaluate, memory_references == address leaves (multiset), partial substitution keeps other variables. non-trivial = non-leaf tree",
     assumptions: &["finite lattice of literal values and one value assignment per variable"],
     run: |ctx| sweep(ctx, Which::C13),
     replay: |c| replay(Which::C13, c),
